@@ -120,6 +120,37 @@ func vc29_code(n int) {
 	vassert(len(r.collectReplacements(span)) == 0, "no-replacement-inside-a-code-span")
 }
 
+// a link-looking text inside a raw HTML block, after a nested element of the
+// same name has been closed, is still inside raw HTML: nothing is rewritten
+func vc29_html_nested() {
+	tag := []string{"div", "ul", "table", "section"}[vsym_choice(4)]
+	fill := vsym_bytes(2)
+	for _, c := range fill {
+		vassume(c == '<' || c == '/' || c == '>' || c == ' ' || c == 'a' || c == '[' || c == '(')
+	}
+	src := []byte("<" + tag + ">\n<" + tag + ">\nx" + string(fill) + "\n</" + tag + ">\n[a](api)\n</" + tag + ">\n")
+	r := vreplacer()
+	vassert(len(r.collectReplacements(src)) == 0, "destination-inside-raw-html-untouched")
+	vreach("end")
+}
+
+// links may not contain other links (CommonMark): in "[o [i](in)](out)" only
+// the inner destination is a link destination
+func vc29_nested_link() {
+	fill := vsym_bytes(1)
+	for _, c := range fill {
+		vassume(c == ' ' || c == 'a' || c == '!' || c == '*')
+	}
+	src := []byte("[o" + string(fill) + "[i](in)](out)\n")
+	r := vreplacer()
+	reps := r.collectReplacements(src)
+	vassert(len(reps) == 1, "only-the-inner-link-has-a-destination")
+	vassert(string(src[reps[0].start:reps[0].stop]) == "in", "the-inner-destination")
+	vreach("end")
+}
+
+func vh_c29_html_nested_q()  { vc29_html_nested() }
+func vh_c29_nested_link_q()  { vc29_nested_link() }
 func vh_c29_collect_q()      { vc29_collect("", 4, "") }
 func vh_c29_collect_link_q() { vc29_collect("[a](", 2, ")") }
 func vh_c29_collect_ref_q()  { vc29_collect("[a]: ", 2, "") }
